@@ -218,6 +218,7 @@ func (t *tcpTransport) RemoteAddr() net.Addr {
 func (t *tcpTransport) setConn(conn net.Conn) {
 	t.conn = conn
 	t.ctxConn = NewCtxConn(conn, 5*time.Second, 5*time.Second)
+	_, t.ctxConn.wholeWrites = conn.(*tls.Conn)
 
 	var writer io.Writer = t.ctxConn
 	var reader io.Reader = t.ctxConn
@@ -387,6 +388,8 @@ type ctxConn struct {
 	readCancel   context.CancelFunc
 	writeCtx     context.Context
 	writeCancel  context.CancelFunc
+	// wholeWrites is set for a connection that cannot resume a write after a timeout (TLS)
+	wholeWrites bool
 }
 
 func NewCtxConn(conn net.Conn, readTimeout time.Duration, writeTimeout time.Duration) *ctxConn {
@@ -455,6 +458,10 @@ func (c *ctxConn) Read(b []byte) (n int, err error) {
 }
 
 func (c *ctxConn) Write(b []byte) (n int, err error) {
+	if c.wholeWrites {
+		return c.writeWhole(b)
+	}
+
 	for {
 		if err = c.writeCtx.Err(); err != nil {
 			return n, err
@@ -484,6 +491,38 @@ func (c *ctxConn) Write(b []byte) (n int, err error) {
 
 		return n, nil
 	}
+}
+
+// writeWhole writes to a connection where a write timeout is final (after one, a TLS connection
+// refuses every other write), so the write cannot be polled: it waits for as long as the context
+// allows, and the end of the context forces the deadline.
+func (c *ctxConn) writeWhole(b []byte) (n int, err error) {
+	ctx := c.writeCtx
+	if err = ctx.Err(); err != nil {
+		return 0, err
+	}
+
+	// The zero time, when the context has no deadline, means no deadline
+	deadline, _ := ctx.Deadline()
+	if err = c.conn.SetWriteDeadline(deadline); err != nil {
+		return 0, err
+	}
+
+	done := make(chan struct{})
+	stopped := make(chan struct{})
+	go func() {
+		defer close(stopped)
+		select {
+		case <-ctx.Done():
+			_ = c.conn.SetWriteDeadline(time.Now())
+		case <-done:
+		}
+	}()
+
+	n, err = c.conn.Write(b)
+	close(done)
+	<-stopped
+	return n, err
 }
 
 func (c *ctxConn) Close() error {
